@@ -641,6 +641,14 @@ class Package:
                 info = self._class_fallback(anchor)
                 if info is not None:
                     cache[("cls", id(info.node))] = anchor
+            for anchor in self.NESTED_ANCHORS:
+                mod, _, qual = anchor.partition(".")
+                m = self.modules.get(f"{PKG}.{mod}")
+                if m is not None and qual in m.units:
+                    continue
+                alt = self._unit_or_none(anchor)
+                if alt is not None:
+                    cache[id(alt.node)] = anchor
             cache["#"] = True
         top = u
         suffix = ""
@@ -652,6 +660,9 @@ class Package:
         if top.cls is not None and ("cls", id(top.cls.node)) in cache:
             return cache[("cls", id(top.cls.node))] + "." + top.qualname.rsplit(".", 1)[-1] + suffix
         return u.short
+
+    #: functions nested in an anchored helper that the rules name (found again when the closure became a callable object)
+    NESTED_ANCHORS = ("_core.force_async.async_wrapped",)
 
     def canonical_class(self, info: ClassInfo) -> str:
         """'module.Class' under its anchor name (see canonical)."""
@@ -768,6 +779,21 @@ class Package:
                 named = [u for u in nested if u.qualname.rsplit(".", 1)[-1] == meth]
                 if named or len(nested) == 1:
                     return (named or nested)[0]
+        if found is None and cname and "." not in cname:
+            # the closure an anchored factory returned has become an object of a private class: its coroutine ``__call__``
+            # (``force_async`` returning ``_ForcedAsync(call)`` instead of a nested ``async def``)
+            outer = m.units.get(cname) or self._fallback(f"{mod}.{cname}")
+            if outer is not None and not any(u.parent is outer for u in outer.module.units.values()):
+                rets = [x.value for x in own_nodes(outer.node) if isinstance(x, ast.Return) and x.value is not None]
+                if len(rets) == 1 and isinstance(rets[0], ast.Call):
+                    try:
+                        res = self.resolve_expr_global(outer.module, rets[0].func)
+                    except Exception:  # noqa: BLE001
+                        res = None
+                    info = self.lib_class(res.qual) if res is not None and res.kind == "lib" else None
+                    call = info.methods.get("__call__") if info is not None and info.name.startswith("_") else None
+                    if call is not None and call.kind == "coroutine":
+                        return call
         return found
 
     def _relocated_unit(self, short: str) -> Optional[Unit]:
